@@ -166,7 +166,7 @@ pub fn run(ctx: &mut Ctx) {
     // regression: every control character alone (C15-F1 was: \u escape printed in decimal)
     for cp in (0u32..0x20).chain(0x7f..0xa0) {
         let v = Value::String(format!("a{}b", char::from_u32(cp).unwrap()));
-        let c = print_case(&Value::List(vec![v]));
+        let c = vcore::drive::catch(|| print_case(&Value::List(vec![v.clone()]))).unwrap_or_else(|p| Case::fail(format!("{:?}", v), format!("panic: {}", p)));
         if ctx.check_case("controls", c, serde_json::json!({"codepoint": cp})) {
             return;
         }
